@@ -4,6 +4,7 @@ import (
 	"encoding/base64"
 	"encoding/json"
 	"fmt"
+	"math"
 	"runtime/debug"
 
 	gonnx "github.com/advancedclimatesystems/gonnx"
@@ -218,6 +219,11 @@ func checkC12(c *hx.Checker) {
 			}
 			tall := &ref.T{DT: dt, Shape: []int{len(all)}, V: all}
 			add(hx.TensorProto("", tall, enc), "exact", tall, fmt.Sprintf("%s/%s/all-values(%d)", dt, enc, len(all)), append(base, "all-values")...)
+			// larger payloads with odd element counts (decoders that split the work into blocks)
+			for _, sh := range [][]int{{1027}, {4099}, {3, 1367}, {32771}, {65539}, {7, 9363}} {
+				t := patternFill(dt, sh, len(sh)+sh[0])
+				add(hx.TensorProto("", t, enc), "exact", t, fmt.Sprintf("%s/%s/large%v", dt, enc, sh), append(base, "large")...)
+			}
 			// payload faults
 			for _, sh := range [][]int{{}, {1}, {3}, {2, 2}, {1, 2, 3}} {
 				t := patternFill(dt, sh, 2)
@@ -258,7 +264,9 @@ func checkC12(c *hx.Checker) {
 				add(tp, "error", nil, fmt.Sprintf("%s/%s/%v/no-payload", dt, enc, sh), append(base, "fault=no-payload", "payload-count-mismatch")...)
 			}
 			// bad dims with a consistent-looking payload
-			for _, dims := range [][]int64{{-1}, {2, -2}, {0}, {2, 0}, {1 << 31}, {1 << 40, 1 << 40}} {
+			// (among them products that wrap around to the payload's 4 elements in 64 or 32 bit arithmetic)
+			for _, dims := range [][]int64{{-1}, {2, -2}, {0}, {2, 0}, {1 << 31}, {1 << 40, 1 << 40}, {4, 1<<62 + 1}, {1<<62 + 1, 4}, {2, 2, 1<<62 + 1}, {1 << 32, 1 << 32, 4}, {-2, -2}, {-4, -1}, {-1, -1, 4},
+				{1<<32 + 4}, {1<<31 + 2, 2}, {65536, 65536, 65536, 65536, 4}, {math.MaxInt64, math.MaxInt64, 4}, {math.MinInt64, 4}, {math.MinInt64, math.MinInt64, 4}} {
 				t := patternFill(dt, []int{4}, 1)
 				tp := hx.TensorProto("", t, enc)
 				tp.Dims = dims
@@ -314,11 +322,17 @@ func checkC12(c *hx.Checker) {
 		tp2 := &onnx.TensorProto{DataType: code, Dims: []int64{1}, StringData: [][]byte{[]byte("x")}}
 		add(tp2, "error", nil, fmt.Sprintf("code%d/string_data", code), fmt.Sprintf("code=%d", code), "unsupported-data-type", "carrier=string")
 	}
-	for _, code := range []int32{99, -1, 1 << 20} {
+	for _, code := range []int32{23, 24, 99, -1, -2, -7, 1 << 20, math.MaxInt32, math.MinInt32, math.MinInt32 + 1} {
 		t := patternFill(ref.F32, []int{2}, 0)
 		tp := hx.TensorProto("", t, "typed")
 		tp.DataType = code
 		add(tp, "error", nil, fmt.Sprintf("code%d/typed-float", code), fmt.Sprintf("code=%d", code), "unsupported-data-type", "carrier=float32")
+		t8 := patternFill(ref.U8, []int{4}, 0)
+		tpr := hx.TensorProto("", t8, "raw")
+		tpr.DataType = code
+		add(tpr, "error", nil, fmt.Sprintf("code%d/raw", code), fmt.Sprintf("code=%d", code), "unsupported-data-type", "carrier=raw")
+		add(&onnx.TensorProto{DataType: code, Dims: []int64{1}}, "error", nil, fmt.Sprintf("code%d/no-payload", code), fmt.Sprintf("code=%d", code), "unsupported-data-type", "carrier=none")
+		add(&onnx.TensorProto{DataType: code}, "error", nil, fmt.Sprintf("code%d/no-payload-no-dims", code), fmt.Sprintf("code=%d", code), "unsupported-data-type", "carrier=none")
 	}
 	c.ParallelFor(len(cases), func(i int) {
 		cs := cases[i]
